@@ -1,5 +1,5 @@
 # Std-Lib imports
-from typing import Set, Union, Optional
+from typing import Set, Union, Optional, Iterable, List
 
 # Local imports
 from .datatype import datatype, AllowArbConfig
@@ -42,3 +42,11 @@ class PortRef:
     def __hash__(self):
         """Hash references as the tuple of their instance-address and name"""
         return hash((id(self.inst), self.portname))
+
+
+def ordered(portrefs: Iterable[PortRef]) -> List[PortRef]:
+    """Sort `portrefs` by instance name and port name.
+    `PortRef`s are stored in sets, and hash by their instance's memory address.
+    Elaboration passes which rewrite connections while iterating over them
+    use this order instead, so that their results do not vary from run to run."""
+    return sorted(portrefs, key=lambda p: (p.inst.name or "", p.portname))
